@@ -225,10 +225,18 @@ def stepLine (ds : DS) : List String → DS × String
     (match pid.toNat? with
      | none => (ds, "bad-op")
      | some i =>
+       -- a store through a temporary file: opening the temporary file is not an action on the cache file
+       let ds := match ds.st.procs[i]? with
+         | some p0 =>
+           if p0.pc == .wTrunc && ds.G.w.atomicWrite && act != "open_w" then
+             (match gstep toyEnv ds.G ds.st (.run i) with | some s' => { ds with st := s' } | none => ds)
+           else ds
+         | none => ds
        match ds.st.procs[i]? with
        | none => (ds, "bad-op")
        | some p =>
          let (pa, pr) := predict ds p
+         let pr := if act == "dump" && res == "?" then "?" else pr
          if pa != act then (ds, s!"mismatch process {i}: implementation does '{act}' where the model is at '{pa}'")
          else if pr != res then (ds, s!"mismatch process {i}: '{act}' gives '{res}' in the implementation, '{pr}' in the model")
          else if act == "exit" then (ds, "ok")
